@@ -41,7 +41,7 @@ ScenKey ==
          ELSE <<"none">>
     [] ScenKind = "clear" ->
          \* clear_config by what there was to clear: every combination of empty / non-empty stores before the call
-         IF out.op = "Clear" THEN <<"clear", out.clearConstants, out.had, Len(usaved), interactive>>
+         IF out.op = "Clear" THEN <<"clear", out.clearConstants, out.had, Len(usaved), interactive, { k.name : k \in consts }>>
          ELSE <<"none">>
     [] ScenKind = "macrofin" ->
          \* finalize by what the configuration says about macros: definitions and every way of referring to them
